@@ -961,3 +961,164 @@ Proof.
       * exfalso. apply Hnot. rewrite map_app. apply in_or_app. right. left. reflexivity.
     + rewrite Ep in E2. inversion E2; subst. lia.
 Qed.
+
+(* ------------------------------------------------------------------ *)
+(* (e'), narrower: the gt instance g freed by the deletion can only matter if some
+   prediction processed later is eligible for it.  If none is, the later part of the
+   run is the same with or without g in the pool. *)
+Definition shift_at (c : nat) (r : nat * Q) : nat * Q :=
+  (if (fst r <? c)%nat then fst r else S (fst r), snd r).
+
+Definition ineligible (thr : Q) (x : option Q) : Prop :=
+  match x with Some q => q <= thr | None => True end.
+
+Lemma best_from_shift thr c : forall l pos curL curR,
+  curL = option_map (shift_at c) curR -> (c <= pos)%nat ->
+  best_from thr l (S pos) curL = option_map (shift_at c) (best_from thr l pos curR).
+Proof.
+  induction l as [|v l IH]; intros pos curL curR Hc Hpos; cbn [best_from]; [exact Hc|].
+  apply IH; [|lia].
+  assert (Hnew : forall q, Some (S pos, q) = option_map (shift_at c) (Some (pos, q))).
+  { intros q. cbn [option_map]. unfold shift_at. cbn [fst snd].
+    assert (E : (pos <? c)%nat = false) by (apply Nat.ltb_ge; lia). rewrite E. reflexivity. }
+  destruct v as [q|]; [|exact Hc]. destruct (Qle_bool q thr); [exact Hc|].
+  destruct curR as [[p0 b]|]; subst curL; cbn [option_map].
+  - unfold shift_at at 1. cbn [fst snd]. destruct (Qltb b q); [apply Hnew|reflexivity].
+  - apply Hnew.
+Qed.
+
+Lemma best_from_insert thr x l2 : ineligible thr x ->
+  forall l1 pos cur, (forall p0 b, cur = Some (p0, b) -> (p0 < pos)%nat) ->
+  best_from thr (l1 ++ x :: l2) pos cur =
+  option_map (shift_at (pos + length l1)) (best_from thr (l1 ++ l2) pos cur).
+Proof.
+  intros Hx. induction l1 as [|y l1 IH]; intros pos cur Hcur.
+  - cbn [app length]. rewrite Nat.add_0_r. cbn [best_from].
+    assert (E : match x with
+                | Some q => if Qle_bool q thr then cur
+                            else match cur with
+                                 | Some (_, b) => if Qltb b q then Some (pos, q) else cur
+                                 | None => Some (pos, q)
+                                 end
+                | None => cur
+                end = cur).
+    { destruct x as [q|]; [|reflexivity]. cbn [ineligible] in Hx. apply Qle_bool_iff in Hx.
+      rewrite Hx. reflexivity. }
+    rewrite E. apply best_from_shift; [|lia].
+    destruct cur as [[p0 b]|]; [|reflexivity]. cbn [option_map]. unfold shift_at. cbn [fst snd].
+    specialize (Hcur p0 b eq_refl). assert (E2 : (p0 <? pos)%nat = true) by (apply Nat.ltb_lt; lia).
+    rewrite E2. reflexivity.
+  - cbn [app length best_from]. replace (pos + S (length l1))%nat with (S pos + length l1)%nat by lia.
+    apply IH. intros p0 b Hb.
+    destruct y as [q|]; [|specialize (Hcur _ _ Hb); lia].
+    destruct (Qle_bool q thr); [specialize (Hcur _ _ Hb); lia|].
+    destruct cur as [[p1 b1]|].
+    + destruct (Qltb b1 q); [inversion Hb; lia|specialize (Hcur _ _ Hb); lia].
+    + inversion Hb; lia.
+Qed.
+
+Lemma best_pos_insert thr x l1 l2 : ineligible thr x ->
+  best_pos thr (l1 ++ x :: l2) = option_map (shift_at (length l1)) (best_pos thr (l1 ++ l2)).
+Proof.
+  intros Hx. unfold best_pos. rewrite (best_from_insert thr x l2 Hx l1 0 None); [reflexivity|].
+  intros p0 b H; discriminate.
+Qed.
+
+Lemma pop_at_app_l {A} pos (a1 a2 : list A) : (pos < length a1)%nat ->
+  pop_at pos (a1 ++ a2) = pop_at pos a1 ++ a2.
+Proof.
+  intros H. unfold pop_at. rewrite firstn_app, skipn_app.
+  replace (pos - length a1)%nat with 0%nat by lia. replace (S pos - length a1)%nat with 0%nat by lia.
+  cbn [firstn skipn]. rewrite app_nil_r, app_assoc. reflexivity.
+Qed.
+
+Lemma pop_at_app_r {A} pos (a1 a2 : list A) : (length a1 <= pos)%nat ->
+  pop_at pos (a1 ++ a2) = a1 ++ pop_at (pos - length a1) a2.
+Proof.
+  intros H. unfold pop_at. rewrite firstn_app, skipn_app.
+  rewrite (firstn_all2 a1) by lia. rewrite (skipn_all2 a1) by lia.
+  replace (S pos - length a1)%nat with (S (pos - length a1)) by lia.
+  cbn [app]. rewrite app_assoc. reflexivity.
+Qed.
+
+Lemma match_loop_ignores_ineligible M thr g : forall o2 a1 a2,
+  (forall q, In q o2 -> ineligible thr (mget M g q)) ->
+  fst (match_loop M thr o2 (a1 ++ g :: a2)) = fst (match_loop M thr o2 (a1 ++ a2)).
+Proof.
+  induction o2 as [|q rest IH]; intros a1 a2 Hin; [reflexivity|].
+  assert (Hq : ineligible thr (mget M g q)) by (apply Hin; left; reflexivity).
+  assert (Hrest : forall q', In q' rest -> ineligible thr (mget M g q')) by (intros q' Hq'; apply Hin; right; exact Hq').
+  cbn [match_loop].
+  destruct (a1 ++ g :: a2) as [|b0 bs] eqn:Efull; [destruct a1; discriminate|]. rewrite <- Efull. clear Efull b0 bs.
+  rewrite map_app. cbn [map]. rewrite (best_pos_insert thr _ _ _ Hq), <- map_app, map_length.
+  destruct (a1 ++ a2) as [|c0 cs] eqn:Eshort.
+  - apply app_eq_nil in Eshort. destruct Eshort; subst a1 a2. cbn [map best_pos best_from option_map].
+    rewrite (IH [] [] Hrest). cbn [app]. rewrite match_loop_nil_avail. reflexivity.
+  - rewrite <- Eshort. clear Eshort c0 cs.
+    destruct (best_pos thr (map (fun g0 => mget M g0 q) (a1 ++ a2))) as [[pos v]|] eqn:Eb; cbn [option_map].
+    + unfold shift_at. cbn [fst snd].
+      assert (Hpos : (pos < length (a1 ++ a2))%nat).
+      { apply best_pos_some in Eb. destruct Eb as [Hn _].
+        assert (Hs : nth_error (map (fun g0 => mget M g0 q) (a1 ++ a2)) pos <> None) by congruence.
+        apply nth_error_Some in Hs. rewrite map_length in Hs. exact Hs. }
+      destruct (pos <? length a1)%nat eqn:El.
+      * apply Nat.ltb_lt in El. rewrite !pop_at_app_l by exact El. rewrite !app_nth1 by exact El.
+        specialize (IH (pop_at pos a1) a2 Hrest).
+        destruct (match_loop M thr rest (pop_at pos a1 ++ g :: a2)) as [ms1 m1].
+        destruct (match_loop M thr rest (pop_at pos a1 ++ a2)) as [ms2 m2]. cbn [fst] in *. rewrite IH. reflexivity.
+      * apply Nat.ltb_ge in El. rewrite app_length in Hpos.
+        rewrite (pop_at_app_r (S pos) a1 (g :: a2)) by lia. rewrite (pop_at_app_r pos a1 a2) by exact El.
+        rewrite (app_nth2 a1 (g :: a2)) by lia. rewrite (app_nth2 a1 a2) by lia.
+        replace (S pos - length a1)%nat with (S (pos - length a1)) by lia. cbn [nth].
+        assert (Epop : pop_at (S (pos - length a1)) (g :: a2) = g :: pop_at (pos - length a1) a2) by reflexivity.
+        rewrite Epop. specialize (IH a1 (pop_at (pos - length a1) a2) Hrest).
+        destruct (match_loop M thr rest (a1 ++ g :: pop_at (pos - length a1) a2)) as [ms1 m1].
+        destruct (match_loop M thr rest (a1 ++ pop_at (pos - length a1) a2)) as [ms2 m2]. cbn [fst] in *.
+        rewrite IH. reflexivity.
+    + apply IH. exact Hrest.
+Qed.
+
+Lemma pop_at_split {A} (d : A) pos (l : list A) : (pos < length l)%nat ->
+  l = firstn pos l ++ nth pos l d :: skipn (S pos) l /\ pop_at pos l = firstn pos l ++ skipn (S pos) l.
+Proof.
+  intros H. split; [|reflexivity]. revert l H. induction pos as [|pos IH]; intros [|x l] H; cbn [length] in H; try lia.
+  - reflexivity.
+  - cbn [firstn nth skipn app]. f_equal. apply IH. lia.
+Qed.
+
+(* the narrow form: the deleted prediction p may have been matched (to g), as long as no
+   prediction processed after it is eligible for g *)
+Lemma delete_prediction_partial_narrow M thr o1 p o2 avail t ms missed ms' missed' :
+  match_loop M thr (o1 ++ p :: o2) avail = (ms, missed) ->
+  match_loop M thr (o1 ++ o2) avail = (ms', missed') ->
+  (forall g v, In (g, p, v) ms -> forall q, In q o2 -> ineligible thr (mget M g q)) ->
+  (count_ge t (map oks_of ms') <= count_ge t (map oks_of ms))%nat /\
+  (length ms' + length missed' = length ms + length missed)%nat.
+Proof.
+  intros H H' Hsel. split.
+  2:{ rewrite (match_loop_total _ _ _ _ _ _ H), (match_loop_total _ _ _ _ _ _ H'). reflexivity. }
+  rewrite match_loop_app in H, H'.
+  destruct (match_loop M thr o1 avail) as [ms1 av1].
+  destruct (match_loop M thr (p :: o2) av1) as [msp mp] eqn:Ep.
+  destruct (match_loop M thr o2 av1) as [ms2 m2] eqn:E2.
+  inversion H; inversion H'; subst. rewrite !map_app, !count_ge_app.
+  apply Nat.add_le_mono_l.
+  cbn [match_loop] in Ep. destruct av1 as [|a0 av] eqn:Eav.
+  - inversion Ep; subst. rewrite match_loop_nil_avail in E2. inversion E2; subst. cbn. lia.
+  - rewrite <- Eav in *. clear Eav a0 av.
+    destruct (best_pos thr (map (fun g => mget M g p) av1)) as [[pos v]|] eqn:Eb.
+    + destruct (match_loop M thr o2 (pop_at pos av1)) as [msr mr] eqn:Er. inversion Ep; subst. clear Ep.
+      assert (Hpos : (pos < length av1)%nat).
+      { apply best_pos_some in Eb. destruct Eb as [Hn _].
+        assert (Hs : nth_error (map (fun g => mget M g p) av1) pos <> None) by congruence.
+        apply nth_error_Some in Hs. rewrite map_length in Hs. exact Hs. }
+      set (g := nth pos av1 0%nat) in *.
+      assert (Hg : forall q, In q o2 -> ineligible thr (mget M g q)).
+      { apply (Hsel g v). apply in_or_app. right. left. reflexivity. }
+      destruct (pop_at_split 0%nat pos av1 Hpos) as [Hsplit Hpop]. fold g in Hsplit.
+      pose proof (match_loop_ignores_ineligible M thr g o2 (firstn pos av1) (skipn (S pos) av1) Hg) as Hsame.
+      rewrite <- Hsplit, <- Hpop, E2, Er in Hsame. cbn [fst] in Hsame. subst ms2.
+      change (map oks_of ((g, p, v) :: msr)) with ([oks_of (g, p, v)] ++ map oks_of msr).
+      rewrite count_ge_app. lia.
+    + rewrite Ep in E2. inversion E2; subst. lia.
+Qed.
